@@ -28,7 +28,8 @@ def hookVis (song : Song) (d : DataInfo) (fuel : Nat) (c : Conv) (w : WState) (i
     | .ok (c, param) =>
       let param := if param < 0 then 0 else param
       if w.inDrum then
-        if param > 255 then .error .noteRange
+        if it.topLoop then .error .drumNoteInLoop
+        else if param > 255 then .error .noteRange
         else .ok (c, { (push w mds_DMFINISH param) with disabled := true })
       else if param ≥ (mds_SLR - mds_NOTE : Nat) then .error .noteRange
       else .ok (c, push w (mds_NOTE + param.toNat) it.on)
@@ -246,6 +247,9 @@ theorem hook_step {song : Song} {d : DataInfo} (hpc : PlatformClean d) {n : Nat}
           have hwd : w.drumEnabled = true := by rw [← hde]; exact hd
           by_cases hin : w1.inDrum = true
           · rw [if_pos hin] at h
+            by_cases htl : it.topLoop = true
+            · rw [if_pos htl] at h; simp at h
+            rw [if_neg htl] at h
             by_cases hgt : drumArg id > 255
             · rw [if_pos hgt] at h; simp at h
             · rw [if_neg hgt] at h
@@ -274,6 +278,9 @@ theorem hook_step {song : Song} {d : DataInfo} (hpc : PlatformClean d) {n : Nat}
         rw [← hq] at h
         by_cases hin : w1.inDrum = true
         · rw [if_pos hin] at h
+          by_cases htl : it.topLoop = true
+          · rw [if_pos htl] at h; simp at h
+          rw [if_neg htl] at h
           by_cases hgt : q > 255
           · rw [if_pos hgt] at h; simp at h
           · rw [if_neg hgt] at h
